@@ -218,6 +218,53 @@ def run(ck):
             ck.violation(f'single-leaf tree queried with split_temperature=0.7 returns {got[0].tolist()}, its only leaf predicts {want[0].tolist()}',
                          dict(task=i, got=got.tolist(), want=want.tolist()), key=json.dumps(dict(site='single-leaf-soft')))
 
+    # a discrete table under soft routing: three distinct rows duplicated far beyond the leaf size, so deep nodes hold copies of ONE row (all projections equal: zero
+    # inter-quartile range, gate scale at its floor) and the query rows lie exactly on the split hyperplanes; the mixture must be finite, on the simplex, and equal to
+    # sum_l w_l f_l(x) with w from the statement (mpmath, the node scales as stored)
+    for i in range(ck.n(2, 6)):
+        n = int(rng.integers(90, 160))
+        base = np.round(xr.make_X('random', 3, d, rng) * 2) / 2
+        X = base[rng.integers(0, 3, size=n)].astype(np.float32); X[:3] = base
+        y = xr.make_y('reg', X, rng); Xv = X[:30].copy(); yv = y[:30].copy()
+        Tq = [0.5, 2.0][i % 2]
+        xr.seed_all(970 + i)
+        # one dyadic split direction for every node: projections of the (dyadic) rows are exact in float32, so "on the hyperplane" means a logit of exactly 0 for
+        # the code and for the exact oracle alike (with a learned direction the float32 rounding of x.v is amplified by 1/(T * 1e-6) at such nodes)
+        fv = np.zeros(d, dtype=np.float32); fv[0] = 1.0; fv[-1] = 0.5
+        fm = xr.xRFM(rfm_params=xr.default_rfm_params(iters=0, reg=1e-2), max_leaf_size=max(8, n // 8), verbose=False, use_temperature_tuning=False,
+                     split_temperature=Tq, keep_weight_frac_in_predict=1.0, max_leaf_count_in_ensemble=64, refill_size=10,
+                     split_method='fixed_vector', fixed_vector=torch.tensor(fv))
+        try:
+            with xr.quiet():
+                fm.fit(torch.tensor(X), torch.tensor(y), torch.tensor(Xv), torch.tensor(yv))
+                far = base[:1].copy(); far[0, -1] = 1e4
+                Qd = np.concatenate([base, far]).astype(np.float32)
+                got = np.asarray(fm.predict(torch.tensor(Qd)), dtype=np.float64).reshape(len(Qd), -1)
+        except Exception as e:
+            ck.violation(f'soft routing on a discrete table raised {e!r}', dict(n=n, T=Tq), key=json.dumps(dict(site='discrete-soft'))); continue
+        tree = fm.trees[0]
+        ck.case(dict(kind='discrete-soft', n=n, T=Tq, leaves=len(orc.tree_leaves(tree))), nontrivial=True); ck.count('discrete table under soft routing')
+        if tree['type'] == 'leaf':
+            continue
+        leaves = orc.tree_leaves(tree)
+        with xr.quiet():
+            outs = [np.asarray(l['model'].predict(torch.tensor(Qd)), dtype=np.float64).reshape(len(Qd), -1) for l in leaves]
+        bad_scale = [float(nd.get('adaptive_temp_scaling', 1.0)) for nd in node_table(tree) if not float(nd.get('adaptive_temp_scaling', 1.0)) > 0]
+        if bad_scale:
+            ck.violation(f'a split node of a tree fitted on a discrete table stores the gate scale {bad_scale[0]} (not positive): its logits are 0/0 or +-inf for every row; '
+                         f'prediction of the training row {Qd[0].tolist()} is {got[0].tolist()} (T={Tq})', dict(scale=bad_scale[0], T=Tq, got=got.tolist()), key=json.dumps(dict(site='discrete-soft')))
+            continue
+        for r in range(len(Qd)):
+            ws, _ = mp_weights(tree, Qd[r], Tq)
+            tot = sum(ws)
+            want = sum(float(w / tot) * outs[k][r] for k, w in enumerate(ws))
+            lo = min(o[r].min() for o in outs); hi = max(o[r].max() for o in outs)
+            if not np.all(np.isfinite(got[r])) or np.max(np.abs(got[r] - want)) > 1e-4 * (1 + np.max(np.abs(want))) or got[r].min() < lo - 1e-5 or got[r].max() > hi + 1e-5:
+                ck.violation(f'soft prediction {got[r].tolist()} of row {Qd[r].tolist()} on a discrete table is not the documented mixture {np.asarray(want).tolist()} '
+                             f'(leaf outputs span [{lo}, {hi}]; T={Tq})', dict(row=Qd[r].tolist(), got=got[r].tolist(), want=np.asarray(want).tolist(), T=Tq),
+                             key=json.dumps(dict(site='discrete-soft')))
+                break
+
     # ---------------- (b)-(f) weights, truncation, aggregation ----------------
     pick = list(range(len(trees)))
     rng.shuffle(pick)
